@@ -7,7 +7,9 @@ import lzma
 import os
 import shutil
 import sys
+import struct
 import tempfile
+import zlib
 
 sys.path.insert(0, os.path.join(os.path.dirname(os.path.abspath(__file__)), "..", "tools"))
 from checklib import *  # noqa
@@ -186,6 +188,133 @@ def parse_out(o):
         return None
 
 
+# ---------------------------------------------------------------- compressed streams with crafted geometry
+
+def gz_member(data, total=None):
+    """one gzip member for `data`; when `total` is given the member is exactly `total` bytes long
+    (padded through the header's FNAME field, which every inflater skips)"""
+    co = zlib.compressobj(9, zlib.DEFLATED, -15)
+    raw = co.compress(data) + co.flush()
+    trailer = struct.pack("<II", zlib.crc32(data) & 0xFFFFFFFF, len(data) & 0xFFFFFFFF)
+    base = 10 + len(raw) + 8
+    if total is None or total == base:
+        return b"\x1f\x8b\x08\x00" + b"\0" * 4 + b"\x02\xff" + raw + trailer
+    pad = total - base
+    if pad < 1:
+        raise ValueError("gzip member cannot be made that small")
+    return b"\x1f\x8b\x08\x08" + b"\0" * 4 + b"\x02\xff" + b"n" * (pad - 1) + b"\0" + raw + trailer
+
+
+def text_lines(rng, nbytes, tag):
+    out = []
+    n = 0
+    i = 0
+    while n < nbytes:
+        l = ("%s %d %s" % (tag, i, "%x" % rng.getrandbits(rng.choice((8, 64, 256))))).encode()
+        if rng.random() < 0.1:
+            l += b"\r"
+        out.append(l)
+        n += len(l) + 1
+        i += 1
+    return b"\n".join(out) + b"\n"
+
+
+def compressed_cases(c, refill):
+    """(name, stream, plain, first_fragment_script) for the compressed backings whose behaviour depends on
+    where things fall relative to the decompressing reader's input buffer: after the 6 magic bytes the
+    reader refills `refill` (kInputBuffer) bytes at a time, so refill boundaries are at 6 + refill*j.
+      * member boundaries exactly on / one byte before / one byte after every such boundary (j = 1, 2),
+        for a gz, bz2 and xz member ending there (a FNAME-padded gzip member in front sets the offset);
+      * streams whose first pipe fragment is shorter than the magic number (1..5 bytes)."""
+    rng = c.rng
+    codecs = {"gz": lambda x: gzip.compress(x, 6), "bz2": lambda x: bz2.compress(x, 1), "xz": lambda x: lzma.compress(x, preset=0)}
+    out = []
+    for j in (1, 2):
+        for delta in (-1, 0, 1):
+            target = 6 + refill * j + delta
+            # a single gzip member ending there
+            d1, d2 = text_lines(rng, 9000, "first"), text_lines(rng, 1500, "second") + b"unterminated tail"
+            d3 = text_lines(rng, 300, "third")
+            try:
+                out.append(("gz-member-ends-at-refill*%d%+d" % (j, delta), gz_member(d1, target) + gzip.compress(d2, 1) + bz2.compress(d3, 1), d1 + d2 + d3, "-"))
+            except ValueError:
+                pass
+            for name, comp in sorted(codecs.items()):
+                d1, d2, d3 = text_lines(rng, 5000, "a"), text_lines(rng, rng.choice((200, 3000)), "b"), text_lines(rng, 400, "c")
+                m2 = comp(d2)
+                m3 = codecs[rng.choice(sorted(codecs))](d3)
+                try:
+                    m1 = gz_member(d1, target - len(m2))
+                except ValueError:
+                    continue
+                out.append(("gz+%s-member-ends-at-refill*%d%+d" % (name, j, delta), m1 + m2 + m3, d1 + d2 + d3, "-"))
+    # first fragment shorter than the magic; also later short reads so that a follow-on member's header straddles reads
+    for name, comp in sorted(codecs.items()):
+        for k in (1, 2, 3, 4, 5):
+            d = text_lines(rng, 2000, name)
+            out.append(("%s-first-fragment-%d" % (name, k), comp(d), d, "S%d" % k))
+        d1, d2 = text_lines(rng, 700, "m1"), text_lines(rng, 700, "m2")
+        sc = ",".join(rng.choice(("S1", "S2", "S3", "S5", "E", "S100", "S%d" % refill)) for _ in range(40))
+        out.append(("%s+%s-random-short-reads" % (name, name), comp(d1) + comp(d2), d1 + d2, sc))
+    return out
+
+
+def compressed_level(c, impl, vfio):
+    """compressed backings with crafted geometry, through util::FilePiece (harness, scripted read()) and through
+    bin/remove_long_lines (regular file, pipe, pipe under libvfio with the same first-fragment script);
+    oracle: the records of the plain text."""
+    import re
+    try:
+        refill = int(re.search(r"rc_input_buffer : N := (\d+)%N", open(os.path.join(COQ, "theories", "Gen", "Src_filepiece.v")).read()).group(1))
+    except Exception:
+        refill = 16384
+    P = os.sysconf("SC_PAGE_SIZE")
+    os.environ.pop("HX_PAGESIZE", None)
+    cases = compressed_cases(c, refill)
+    lines = ["R %d 1 10 1 %d %s %s" % (P, i % 3, blob.hex(), sc) for i, (name, blob, plain, sc) in enumerate(cases)]
+    outs, deaths = run_lines_resilient(impl, lines, 120, None, 3)
+    for idx, rc, err in deaths:
+        c.violation("harness-died: util::FilePiece crashed or hung (rc %s) on compressed case %s" % (rc, cases[idx][0]),
+                    {"case": cases[idx][0], "stream_hex": cases[idx][1].hex(), "script": cases[idx][3]})
+    exe = repo_bin("remove_long_lines")
+    for (name, blob, plain, sc), line, o in zip(cases, lines, outs):
+        want = py_records(plain)
+        c.count(("Z", name), nontrivial=True, bucket="compressed-geometry/" + re.sub(r"\*\d+[+-]\d+|-\d+$", "", name))
+        if o is not None:
+            got = parse_out(o)
+            if got is None or got[0] != want or got[3] != "TT":
+                nrec = len(got[0]) if got else 0
+                c.violation("compressed-records-differ: FilePiece on %s (%d compressed bytes, read() script %s) returned %s, the plain text has %d records" % (
+                    name, len(blob), sc, ("%d records" % nrec) if got else o[:60], len(want)),
+                    {"case": name, "stream_hex": blob.hex(), "script": sc, "plain_hex": plain.hex(), "records_got": nrec, "records_want": len(want),
+                     "how": "hx_filepiece <<< 'R %d 1 10 1 0 <stream_hex> %s'" % (P, sc)})
+        wantb = b"".join(r + b"\n" for r in want)
+        runs = []
+        if sc == "-":
+            path = os.path.join(SCRATCH, "z.bin")
+            with open(path, "wb") as f:
+                f.write(blob)
+            with open(path, "rb") as f:
+                try:
+                    p = subprocess.run([exe, "1000000000"], stdin=f, stdout=subprocess.PIPE, stderr=subprocess.PIPE, timeout=25)
+                    runs.append(("regular file", p.returncode, p.stdout))
+                except subprocess.TimeoutExpired:
+                    runs.append(("regular file", "timeout", b""))
+            st, out, _ = run_tool([exe, "1000000000"], stdin=blob, timeout=25)
+            runs.append(("pipe", st, out))
+        elif vfio and "," not in sc:
+            env = dict(os.environ, LD_PRELOAD=vfio, VFIO_SCRIPT=sc, VFIO_FDS="0", VFIO_OPS="r")
+            st, out, _ = run_tool([exe, "1000000000"], stdin=blob, timeout=25, env=env)
+            runs.append(("pipe whose first read() returns %s byte(s)" % sc[1:], st, out))
+        for via, st, out in runs:
+            c.count(("Ztool", name, via), nontrivial=True, bucket="compressed-geometry/tool-" + via.split(" ")[0])
+            if st != 0 or out != wantb:
+                c.violation("compressed-tool-records: remove_long_lines 1000000000 on %s via %s: status %s, %d output bytes, the plain text's records make %d" % (
+                    name, via, st, len(out), len(wantb)),
+                    {"tool": "remove_long_lines 1000000000", "case": name, "via": via, "stdin_hex": blob.hex(), "script_on_fd0": sc, "status": st,
+                     "got_len": len(out), "want_len": len(wantb)})
+
+
 def tool_level(c, have_vfio):
     """bin/remove_long_lines with a huge limit is the identity on records."""
     rng = c.rng
@@ -253,13 +382,15 @@ def main(argv):
     os.makedirs(SCRATCH, exist_ok=True)
     os.environ["HX_TMPDIR"] = SCRATCH
     try:
-        ok, blog = build_repo(["hx_filepiece", "remove_long_lines"])
+        ok, blog = build_repo(["hx_filepiece", "remove_long_lines", "vfio"])
         if not ok:
             c.broken.append("build of the repo working tree failed: " + blog[-800:])
             return c.finish(rule="build failed")
         c.proofs()
+        # only the translator this property's theories depend on (Gen/Src_filepiece.v) is part of its tie
+        c.broken = [b for b in c.broken if not (b.startswith("translator(") and not b.startswith("translator(filepiece)"))]
         if c.tier == "thorough":
-            coqchk(c, ["PP.Props.Properties_C02"])
+            coqchk(c)
         drv, dlog = build_driver("C02")
         impl = hx_bin("hx_filepiece")
         by_page = gen_cases(c)
@@ -369,11 +500,12 @@ def main(argv):
                 elif kind == "R" and any(req == 0 for req, _ in trace):
                     c.violation("zero-size-read: read() asked for 0 bytes (would be taken for EOF)", {"case": line, "page": page, "trace": trace})
         os.environ.pop("HX_PAGESIZE", None)
+        compressed_level(c, impl, os.path.join(build_dir(), "hx", "libvfio.so"))
         tool_level(c, False)
     finally:
         shutil.rmtree(SCRATCH, ignore_errors=True)
     return c.finish(level="proof",
-                    rule="read() path: every input over {a,LF,CR} of length <= 8 under every fragmentation with a 2-byte window (page size 1 via the harness's sysconf), the same inputs with other windows/APIs/delimiters/no CR stripping/istream, random records around 1x/2x/4x the window with CR and delimiter on window edges under random Full/Short/EINTR scripts; mmap path: emulated mmap with page sizes 1-8 at every kind of start offset and total size around window multiples, real mmap with the real page size at sizes around page multiples; tool level: remove_long_lines 1000000000 over file/pipe/gz/bz2/xz/multi-member. distinct = distinct non-empty cases",
+                    rule="read() path: every input over {a,LF,CR} of length <= 8 under every fragmentation with a 2-byte window (page size 1 via the harness's sysconf), the same inputs with other windows/APIs/delimiters/no CR stripping/istream, random records around 1x/2x/4x the window with CR and delimiter on window edges under random Full/Short/EINTR scripts; mmap path: emulated mmap with page sizes 1-8 at every kind of start offset and total size around window multiples, real mmap with the real page size at sizes around page multiples; compressed backings with crafted geometry (gz/bz2/xz member boundaries on and +-1 around every input-buffer refill boundary 6+kInputBuffer*j, first pipe fragment of 1-5 bytes, random short reads across member headers) through the harness and through remove_long_lines; tool level: remove_long_lines 1000000000 over file/pipe/gz/bz2/xz/multi-member. distinct = distinct non-empty cases",
                     assumptions=["the OS is an oracle: each read() returns between 1 and the requested number of the next source bytes, or EINTR, and 0 only at end of input (and then for ever)",
                                  "mmap(offset, size>0) of a regular file shows exactly bytes [offset, offset+size) of the file; mmap of size 0 fails; the file does not change while it is read",
                                  "inputs starting with a gzip/bzip2/xz magic number are outside the model (ECompressed); decompressors are property C15",
